@@ -74,10 +74,23 @@ def _expr_place(body, place, depth=0, stop=()):
                 idx.append(_freeze(ie))
             elif pe["k"] == "cindex":
                 idx.append(("const", pe.get("offset", pe.get("i")), "usize") if not pe.get("from_end") else ("fromend", pe.get("offset")))
+        path_ = targets_str(body, place)
+        # a reference captured *by value* in a closure environment (`_9 = copy _1.<i>; *_9`): the coarse pointer analysis names only the
+        # environment; keep the capture index so that loads through different captured references are different values
+        if proj and proj[0]["k"] == "deref" and not (1 <= l <= body["argc"]):
+            ds_ = mir.defs(body).get(l, [])
+            if len(ds_) == 1 and ds_[0][0] == "stmt" and not mir.partial_defs(body).get(l):
+                rv_ = ds_[0][3]["rv"]
+                op_ = rv_.get("op") if rv_.get("k") == "use" else None
+                if op_ and op_.get("k") in ("copy", "move"):
+                    sp_ = op_["place"]
+                    if 1 <= sp_["l"] <= body["argc"] and len(sp_["p"]) == 1 and sp_["p"][0]["k"] == "field" and sp_["p"][0].get("adt") == "<closure-env>":
+                        rest_ = "".join("." + mir.proj_key(pe) for pe in proj[1:])
+                        path_ = "arg%d.%d.*%s" % (sp_["l"], sp_["p"][0]["i"], rest_)
         if idx:
             # explicit indexing: keep the index expressions so that different elements are different values
-            return ("load", targets_str(body, place), place["ty"], tuple(idx))
-        return ("load", targets_str(body, place), place["ty"])
+            return ("load", path_, place["ty"], tuple(idx))
+        return ("load", path_, place["ty"])
     # projections of a local value (tuple/struct fields, enum payloads)
     e = expr_local(body, l, depth + 1, stop)
     for pe in proj:
